@@ -28,6 +28,53 @@ var yieldFiles = []string{"smx509/cert_pool.go", "smx509/verify.go",
 	"internal/sm4/cbc_cipher_asm.go", "internal/sm4/ecb_cipher_asm.go", "internal/sm4/sm4_xts.go", "internal/sm4/modes.go",
 	"internal/sm3/sm3.go", "internal/sm3/kdf_amd64.go", "internal/sm3/kdf_mult4_asm.go", "internal/sm3/kdf_mult8_amd64.go", "internal/sm3/kdf_generic.go"}
 
+// arithmetic-core functions that get a scheduling point at entry AND at exit (deferred): the structural operations
+// that may normalise or fill a caller-visible object. A preemption right after such a function returned lets the
+// race detector compare its stores with another thread's accesses while they are still in the detector's history
+// (after a whole pairing they are not), and lets result comparison see a half-updated shared object.
+// file -> receiver type ("" = plain functions) -> names ("*" = every exported method)
+var exitYield = map[string]map[string][]string{
+	"internal/sm9/bn256/g1.go":      {"G1": {"Marshal", "MarshalUncompressed", "MarshalCompressed", "Unmarshal", "UnmarshalCompressed", "ScalarMult", "ScalarBaseMult", "fillBytes"}},
+	"internal/sm9/bn256/g2.go":      {"G2": {"Marshal", "MarshalUncompressed", "MarshalCompressed", "Unmarshal", "UnmarshalCompressed", "ScalarMult", "ScalarBaseMult", "fillBytes"}},
+	"internal/sm9/bn256/gt.go":      {"": {"Pair", "Miller"}, "GT": {"Marshal", "Unmarshal", "Finalize"}},
+	"internal/sm9/bn256/bn_pair.go": {"": {"miller", "pairing", "finalExponentiation"}},
+	"internal/sm9/bn256/twist.go":   {"twistPoint": {"MakeAffine", "AffineFromJacobian"}},
+	"internal/sm9/bn256/curve.go":   {"curvePoint": {"MakeAffine", "AffineFromJacobian", "AffineFromProjective"}},
+	"internal/sm2ec/sm2p256_asm.go": {"SM2P256Point": {"ScalarMult", "ScalarBaseMult", "SetBytes", "Bytes", "BytesX", "BytesCompressed", "SetGenerator"}},
+	"internal/sm2ec/sm2p256.go":     {"SM2P256Point": {"ScalarMult", "ScalarBaseMult", "SetBytes", "Bytes", "BytesX", "BytesCompressed", "SetGenerator"}},
+}
+
+func recvType(fd *ast.FuncDecl) string {
+	if fd.Recv == nil || len(fd.Recv.List) == 0 {
+		return ""
+	}
+	t := fd.Recv.List[0].Type
+	if st, ok := t.(*ast.StarExpr); ok {
+		t = st.X
+	}
+	if id, ok := t.(*ast.Ident); ok {
+		return id.Name
+	}
+	return "?"
+}
+
+func wantsExitYield(rel string, fd *ast.FuncDecl) bool {
+	m, ok := exitYield[rel]
+	if !ok {
+		return false
+	}
+	names, ok := m[recvType(fd)]
+	if !ok {
+		return false
+	}
+	for _, n := range names {
+		if n == fd.Name.Name || (n == "*" && ast.IsExported(fd.Name.Name) && fd.Name.Name != "String") {
+			return true
+		}
+	}
+	return false
+}
+
 const hookPath = "github.com/emmansun/gmsm/verifsync"
 
 func main() {
@@ -54,12 +101,15 @@ func main() {
 	for p := range yieldPkg {
 		dirs[p] = true
 	}
+	for f := range exitYield {
+		dirs[filepath.Dir(f)] = true
+	}
 	var dl []string
 	for d := range dirs {
 		dl = append(dl, d)
 	}
 	sort.Strings(dl)
-	nSync, nYield := 0, 0
+	nSync, nYield, nExit := 0, 0, 0
 	for _, d := range dl {
 		ents, err := os.ReadDir(filepath.Join(repo, d))
 		if err != nil {
@@ -104,11 +154,16 @@ func main() {
 				}
 			}
 			doYield := yieldPkg[d] || yieldFile[rel]
+			_, hasExit := exitYield[rel]
 			inserted := 0
-			if doYield {
+			if doYield || hasExit {
 				for _, decl := range f.Decls {
 					fd, ok := decl.(*ast.FuncDecl)
 					if !ok || fd.Body == nil {
+						continue
+					}
+					exitToo := wantsExitYield(rel, fd)
+					if !doYield && !exitToo {
 						continue
 					}
 					skip := false
@@ -123,7 +178,12 @@ func main() {
 						continue
 					}
 					off := fset.Position(fd.Body.Lbrace).Offset + 1
-					edits = append(edits, edit{off, 0, "verifsyncY_.Yield();"})
+					if exitToo {
+						edits = append(edits, edit{off, 0, "verifsyncY_.Yield();defer verifsyncY_.Yield();"})
+						nExit++
+					} else {
+						edits = append(edits, edit{off, 0, "verifsyncY_.Yield();"})
+					}
 					inserted++
 				}
 			}
@@ -150,6 +210,6 @@ func main() {
 			replace[filepath.Join(repo, rel)] = dst
 		}
 	}
-	fmt.Fprintf(os.Stderr, "mkc20overlay: %d files rewritten, %d sync imports redirected, %d function-entry yields\n", len(replace), nSync, nYield)
+	fmt.Fprintf(os.Stderr, "mkc20overlay: %d files rewritten, %d sync imports redirected, %d function-entry yields (%d of them with an exit yield too)\n", len(replace), nSync, nYield, nExit)
 	json.NewEncoder(os.Stdout).Encode(replace)
 }
